@@ -588,3 +588,410 @@ Proof.
   specialize (Hw 0%nat (Nat.lt_0_succ 1)). simpl in Hw.
   repeat (destruct Hw as [Hw|Hw]; [discriminate|]). exact Hw.
 Qed.
+
+(* ================================================================================================ *)
+(* Extension (session 3): C02 stated end to end, on the image BYTES (coq/ImgDet)                     *)
+(* ================================================================================================ *)
+(* The theorems above end at the block processor's outputs (write calls, inodes, fragment table).  Here the statement
+   of C02 itself: the bytes of the image file.  The composed models
+     gensquashfs --pack-dir:  ImgScan.PackModel.pack_image = scan_directory -> fstree_post_process -> pack_files (in
+                              fs->files order, AFTER post processing) over C02.BpModel.run -> sqfs_writer_finish
+                              (Image.FinishModel.write_image: super block, data area, tables, padding)
+     tar2sqfs:                ImgDet.TarPack.tar_pack_image = process_tarball as ONE pass that threads the fstree and
+                              records the write_file calls in ARCHIVE order (the data of a regular file goes to the
+                              block processor during the walk; file number k of the run = k-th regular entry added;
+                              [tar2sqfs_walk_factors]) -> fstree_post_process -> sqfs_writer_finish
+   are instantiated with the pool of BpPool (submit / dequeue RUN C09's labelled transition system of threadpool.c,
+   [threadpool_is_fifo_pool] above) and with the serial pool (threadpool_serial.c; C09's serial_refines_spec).
+
+   Hypotheses of the determinism theorems, exactly:
+     nofail cb            the worker callback reports success for every item ([nofail_cb] above)
+     (n >= 1)%nat         at least one worker
+     admissible n sched   bounded weak fairness: every round of the schedule gives the main thread and each of the n
+                          workers a turn; prefix, order, repetitions, round lengths, spurious wake-ups unrestricted
+     0 < block size       (C02's theorems; sqfs_super_init wants a power of two in 4K..1M anyway)
+     gensquashfs:  forall nm, file_ok (host_file nm)   what the packer reads for a file name is a valid block processor
+                          input: flag word within SQFS_BLK_USER_SETTABLE_FLAGS, no empty append (decidable per file)
+     tar2sqfs:     splice_ok splice                    sqfs_istream_splice never appends an empty piece; the flag word
+                          (0 or SQFS_BLK_DONT_FRAGMENT) is computed by the model, so file_ok is PROVED, not assumed
+   No hypothesis on the requested backlog (-Q): the code clamps it to >= 3, every N is covered (so is "backlog >= 1").
+   No hypothesis on the input: when the scan / process_tarball / post processing / sqfs_writer_finish fails, the
+   outcome (which failure, with which error code) is the same in all runs as well; the data path never fails.
+
+   Shared between the runs that are compared (parameters of the models, i.e. ASSUMED equal): hash, compressors, fragment
+   hash table and block writer (C08), their projection [bw_bytes] to the bytes appended, xattr index / xattr section
+   ([xa], [xsec]), compressor options, the bytes read for a file name ([host_file]: up to the cut into append calls, see
+   [gensquashfs_cut_irrelevant]).  Not modelled: sort files, I/O errors, option parsing. *)
+From SqfsV Require C03.Common C01.Res C01.InodeModel Img.TreeModel.
+From SqfsV Require C04.TarHdr C04.TarStream C11.StrOrder C11.FstreeModel C11.PostModel C11.ScanModel C14.SuperModel.
+From SqfsV Require Image.FinishModel Image.ValidModel Image.ReaderModel ImgPost.PathsModel.
+From SqfsV Require ImgTar.Model ImgScan.PackModel ImgScan.PackProofs ImgScan.Example.
+From SqfsV Require Import Gen.Constants.
+From SqfsV Require Import ImgDet.GenDet ImgDet.TarPack ImgDet.TarDet ImgDet.EnvDet ImgDet.ChunkFree ImgDet.CutDet
+                          ImgDet.Example.
+
+Section ImageBytes.
+Import FstreeModel PostModel ScanModel PackModel PackProofs Model.
+Import C11.ScanProofs C11.CanonProofs.
+(* scan / tar2sqfs options *)
+Variable fnmatch : list N -> list N -> bool -> bool.
+Variable dflt : fsdefaults.
+Variable cfg : scfg.
+Variable o : t2s_opts.
+Variable no_tail_pack : bool.
+(* data path oracles: no hypothesis on any of them *)
+Variable hash : list N -> N.
+Variable dcompress : list N -> option (list N).
+Variable HT : Type.
+Variable ht_search : HT -> blk -> option (N * N).
+Variable ht_insert : HT -> blk -> N * N -> HT.
+Variable BW : Type.
+Variable bw_write : BW -> blk -> BW * N.
+Variable bw_bytes : BW -> list N.
+Variable host_file : list N -> file.
+Variable splice : list N -> list (list N).
+(* the rest of the packer *)
+Variable xa : FstreeModel.path -> N.
+Variable xsec : option (list N * N).
+Variable opts : list N.
+Variable mcompress : list N -> Common.cres.
+Variable limit : N.
+Variable wc : FinishModel.wcfg.
+
+Notation gens_tp := (gensquashfs_on_threadpool fnmatch dflt cfg hash dcompress HT ht_search ht_insert BW bw_write bw_bytes
+                       host_file xa xsec opts mcompress limit wc).
+Notation gens_serial := (gensquashfs_serial fnmatch dflt cfg hash dcompress HT ht_search ht_insert BW bw_write bw_bytes
+                           host_file xa xsec opts mcompress limit wc).
+Notation tar_tp := (tar2sqfs_on_threadpool o dflt no_tail_pack hash dcompress HT ht_search ht_insert BW bw_write bw_bytes
+                      splice xa xsec opts mcompress limit wc).
+Notation tar_serial := (tar2sqfs_serial o dflt no_tail_pack hash dcompress HT ht_search ht_insert BW bw_write bw_bytes
+                          splice xa xsec opts mcompress limit wc).
+
+(* gensquashfs_image_deterministic.  Two runs of gensquashfs on the LTS of threadpool.c — each with its own number of
+   workers, callback table, schedule prefix, schedule and requested backlog — and the serial reference: the same
+   outcome (r1 = r2 = ref, as values of [pres_img]: image with all its parts, or the same failure), hence the same bytes
+   of the image file; the reference IS the in-order specification's image [gens_outcome]; the data path did not fail. *)
+Theorem gensquashfs_image_deterministic :
+  forall cb1 sched1 n1 prefix1 q1 cb2 sched2 n2 prefix2 q2 qs sorted (ht0 : HT) (bw0 : BW) t fs0,
+  nofail cb1 -> (n1 >= 1)%nat -> admissible n1 sched1 ->
+  nofail cb2 -> (n2 >= 1)%nat -> admissible n2 sched2 ->
+  0 < FinishModel.c_block_size wc -> (forall nm, file_ok (host_file nm)) ->
+  let r1 := gens_tp cb1 sched1 n1 prefix1 sorted q1 ht0 bw0 t fs0 in
+  let r2 := gens_tp cb2 sched2 n2 prefix2 sorted q2 ht0 bw0 t fs0 in
+  let ref := gens_serial sorted qs ht0 bw0 t fs0 in
+  r1 = r2 /\ r1 = ref /\
+  image_file r1 = image_file r2 /\ image_file r1 = image_file ref /\
+  ref = gens_outcome fnmatch dflt cfg hash dcompress HT ht_search ht_insert BW bw_write bw_bytes host_file xa xsec opts
+                     mcompress limit wc sorted ht0 bw0 t fs0 /\
+  match r1 with IDataErr _ | IDataCrash | IDataFuel => False | _ => True end.
+Proof.
+  exact (gensquashfs_image_deterministic_l fnmatch dflt cfg hash dcompress HT ht_search ht_insert BW bw_write bw_bytes
+           host_file xa xsec opts mcompress limit wc).
+Qed.
+
+(* ... and the third source of nondeterminism of a directory scan, the order in which readdir delivers the entries (C11's
+   scan_order_free carried through): the two LTS runs scan two enumerations t, t' of the same host directory
+   (hwf: names unique per directory; hperm: same tree up to the order of the children; order_free_case: the native iterator
+   sorts — the code as it is — or -H, or no multiply linked files) *)
+Theorem gensquashfs_image_deterministic_readdir :
+  forall cb1 sched1 n1 prefix1 q1 cb2 sched2 n2 prefix2 q2 qs sorted (ht0 : HT) (bw0 : BW) t t' fs0,
+  nofail cb1 -> (n1 >= 1)%nat -> admissible n1 sched1 ->
+  nofail cb2 -> (n2 >= 1)%nat -> admissible n2 sched2 ->
+  0 < FinishModel.c_block_size wc -> (forall nm, file_ok (host_file nm)) ->
+  hwf t -> hperm t t' -> order_free_case sorted cfg t ->
+  let r1 := gens_tp cb1 sched1 n1 prefix1 sorted q1 ht0 bw0 t fs0 in
+  let r2 := gens_tp cb2 sched2 n2 prefix2 sorted q2 ht0 bw0 t' fs0 in
+  let ref := gens_serial sorted qs ht0 bw0 t' fs0 in
+  r1 = r2 /\ r1 = ref /\ image_file r1 = image_file r2 /\ image_file r1 = image_file ref.
+Proof.
+  exact (gensquashfs_image_deterministic_readdir_l fnmatch dflt cfg hash dcompress HT ht_search ht_insert BW bw_write bw_bytes
+           host_file xa xsec opts mcompress limit wc).
+Qed.
+
+(* the single pass of process_tarball factors: the tree is ImgTar's tar2sqfs_tree, the write_file calls are the regular
+   entries that were added, in archive order, each with the path of its node — a function of the entries alone *)
+Theorem tar2sqfs_walk_factors :
+  forall vs,
+  pt_walk o dflt no_tail_pack splice wc (fs_init dflt) vs =
+  match tar2sqfs_tree o dflt vs with
+  | Some fs => Some (fs, tar_written o dflt no_tail_pack splice wc vs)
+  | None => None
+  end.
+Proof. exact (tar_walk_is_tree o dflt no_tail_pack splice wc). Qed.
+
+(* tar2sqfs_image_deterministic: the same for tar2sqfs, for every list of archive entries *)
+Theorem tar2sqfs_image_deterministic :
+  forall cb1 sched1 n1 prefix1 q1 cb2 sched2 n2 prefix2 q2 qs (ht0 : HT) (bw0 : BW) vs,
+  nofail cb1 -> (n1 >= 1)%nat -> admissible n1 sched1 ->
+  nofail cb2 -> (n2 >= 1)%nat -> admissible n2 sched2 ->
+  0 < FinishModel.c_block_size wc -> splice_ok splice ->
+  let r1 := tar_tp cb1 sched1 n1 prefix1 q1 ht0 bw0 vs in
+  let r2 := tar_tp cb2 sched2 n2 prefix2 q2 ht0 bw0 vs in
+  let ref := tar_serial qs ht0 bw0 vs in
+  r1 = r2 /\ r1 = ref /\
+  image_file r1 = image_file r2 /\ image_file r1 = image_file ref /\
+  ref = tar_outcome o dflt no_tail_pack hash dcompress HT ht_search ht_insert BW bw_write bw_bytes splice xa xsec opts
+                    mcompress limit wc ht0 bw0 vs /\
+  match r1 with IDataErr _ | IDataCrash | IDataFuel => False | _ => True end.
+Proof.
+  exact (tar2sqfs_image_deterministic_l o dflt no_tail_pack hash dcompress HT ht_search ht_insert BW bw_write bw_bytes
+           splice xa xsec opts mcompress limit wc).
+Qed.
+
+(* ---- the cut of the input into append calls ----
+   sqfs_istream_splice appends what the input stream has buffered (at most block_size per call): the pieces depend on the
+   buffer state of the stream stack — with the present refill loop of lib/sqfs/src/io/istream.c a function of the byte
+   stream, with a stream that hands short reads on a function of how the operating system delivered the pipe — an input
+   the two theorems above keep fixed.  It is irrelevant: everything the in-order specification says about a list of files depends on the flag
+   word and the CONCATENATION of the chunks of each file only. *)
+Theorem append_cut_irrelevant :
+  forall bs (ht0 : HT) (bw0 : BW) fa fb, 0 < bs ->
+  Forall file_ok fa -> Forall file_ok fb -> Forall2 same_bytes fa fb ->
+  spec_blocks hash dcompress HT ht_search ht_insert bs ht0 fa = spec_blocks hash dcompress HT ht_search ht_insert bs ht0 fb /\
+  (forall k, spec_inodes hash dcompress HT ht_search ht_insert BW bw_write bs ht0 bw0 fa k =
+             spec_inodes hash dcompress HT ht_search ht_insert BW bw_write bs ht0 bw0 fb k) /\
+  spec_ftbl hash dcompress HT ht_search ht_insert BW bw_write bs ht0 bw0 fa =
+  spec_ftbl hash dcompress HT ht_search ht_insert BW bw_write bs ht0 bw0 fb.
+Proof.
+  intros bs ht0 bw0 fa fb Hbs.
+  exact (spec_chunk_free hash dcompress HT ht_search ht_insert BW bw_write bs Hbs ht0 bw0 fa fb).
+Qed.
+
+(* two runs of tar2sqfs with two different LOSSLESS cuts (no other relation between them), worker counts, schedules,
+   backlogs: the same outcome *)
+Theorem tar2sqfs_cut_irrelevant :
+  forall splice' cb1 sched1 n1 prefix1 q1 cb2 sched2 n2 prefix2 q2 qs (ht0 : HT) (bw0 : BW) vs,
+  0 < FinishModel.c_block_size wc ->
+  splice_ok splice -> splice_ok splice' -> splice_lossless splice -> splice_lossless splice' ->
+  nofail cb1 -> (n1 >= 1)%nat -> admissible n1 sched1 ->
+  nofail cb2 -> (n2 >= 1)%nat -> admissible n2 sched2 ->
+  let r1 := tar_tp cb1 sched1 n1 prefix1 q1 ht0 bw0 vs in
+  let r2 := tar2sqfs_on_threadpool o dflt no_tail_pack hash dcompress HT ht_search ht_insert BW bw_write bw_bytes
+              splice' xa xsec opts mcompress limit wc cb2 sched2 n2 prefix2 q2 ht0 bw0 vs in
+  let ref := tar2sqfs_serial o dflt no_tail_pack hash dcompress HT ht_search ht_insert BW bw_write bw_bytes
+              splice' xa xsec opts mcompress limit wc qs ht0 bw0 vs in
+  r1 = r2 /\ r1 = ref /\ image_file r1 = image_file r2 /\ image_file r1 = image_file ref.
+Proof.
+  intros splice' cb1 sched1 n1 prefix1 q1 cb2 sched2 n2 prefix2 q2 qs ht0 bw0 vs Hbs S1 S2 L1 L2.
+  exact (tar2sqfs_cut_irrelevant_l dflt o no_tail_pack hash dcompress HT ht_search ht_insert BW bw_write bw_bytes xa xsec opts
+           mcompress limit wc Hbs splice splice' S1 S2 L1 L2 cb1 sched1 n1 prefix1 q1 cb2 sched2 n2 prefix2 q2 qs ht0 bw0 vs).
+Qed.
+
+(* ... and of gensquashfs with two readings of the host files that agree on flag word and bytes per file name *)
+Theorem gensquashfs_cut_irrelevant :
+  forall host_file' cb1 sched1 n1 prefix1 q1 cb2 sched2 n2 prefix2 q2 qs sorted (ht0 : HT) (bw0 : BW) t fs0,
+  0 < FinishModel.c_block_size wc ->
+  (forall nm, file_ok (host_file nm)) -> (forall nm, file_ok (host_file' nm)) ->
+  (forall nm, same_bytes (host_file nm) (host_file' nm)) ->
+  nofail cb1 -> (n1 >= 1)%nat -> admissible n1 sched1 ->
+  nofail cb2 -> (n2 >= 1)%nat -> admissible n2 sched2 ->
+  let r1 := gens_tp cb1 sched1 n1 prefix1 sorted q1 ht0 bw0 t fs0 in
+  let r2 := gensquashfs_on_threadpool fnmatch dflt cfg hash dcompress HT ht_search ht_insert BW bw_write bw_bytes
+              host_file' xa xsec opts mcompress limit wc cb2 sched2 n2 prefix2 sorted q2 ht0 bw0 t fs0 in
+  let ref := gensquashfs_serial fnmatch dflt cfg hash dcompress HT ht_search ht_insert BW bw_write bw_bytes
+              host_file' xa xsec opts mcompress limit wc sorted qs ht0 bw0 t fs0 in
+  r1 = r2 /\ r1 = ref /\ image_file r1 = image_file r2 /\ image_file r1 = image_file ref.
+Proof.
+  intros host_file' cb1 sched1 n1 prefix1 q1 cb2 sched2 n2 prefix2 q2 qs sorted ht0 bw0 t fs0 Hbs F1 F2 S.
+  exact (gensquashfs_cut_irrelevant_l fnmatch dflt cfg hash dcompress HT ht_search ht_insert BW bw_write bw_bytes xa xsec opts
+           mcompress limit wc Hbs host_file host_file' F1 F2 S cb1 sched1 n1 prefix1 q1 cb2 sched2 n2 prefix2 q2 qs sorted
+           ht0 bw0 t fs0).
+Qed.
+
+(* ---- the process environment ----
+   [gensquashfs_tool] / [tar2sqfs_tool] (ImgDet/EnvDet.v) are the pipelines above with the ONE value
+   m = default_mtime env optm (C02.EnvModel: SOURCE_DATE_EPOCH string [env], mtime= sub-option [optm] of --defaults)
+   copied to the three places the code copies fs.defaults.mtime to — fstree defaults (root, implicit directories, tar2sqfs
+   entries without --keep-time), dir_tree_cfg_t.def_mtime (gensquashfs scan without --keep-time), sqfs_super_init — and
+   started from fstree_init's tree.  [env] is their only environment parameter.
+
+   HONESTY NOTE.  "No other environment input" is a structural fact about the MODEL: it has no clock, time zone, locale,
+   umask or working directory parameter, so nothing can depend on one.  That the C programs have none either is not a
+   theorem; it is tied to the code by C02's tool-level sweep (props/C02/check.py: real gensquashfs / tar2sqfs under
+   TZ, LC_ALL/LANG, umask, cwd, shifted wall clock, -j/-Q, against the NO_THREAD_IMPL build: sha256 equal) and by the
+   source scan recorded in props/C02/NOTES.md.  What IS proved: the tools' outcome is a function of default_mtime env optm
+   and the non-environment parameters; that value is what the super block's modification_time bytes and every defaulted
+   time stamp carry. *)
+
+(* image_env_independent: three environments with the same default time stamp; two LTS runs with different worker counts,
+   schedules, backlogs and the serial reference: same outcome, for both tools *)
+Theorem image_env_independent :
+  forall env1 env2 env3 optm cb1 sched1 n1 prefix1 q1 cb2 sched2 n2 prefix2 q2 qs sorted (ht0 : HT) (bw0 : BW) t vs,
+  default_mtime env1 optm = default_mtime env2 optm -> default_mtime env1 optm = default_mtime env3 optm ->
+  nofail cb1 -> (n1 >= 1)%nat -> admissible n1 sched1 ->
+  nofail cb2 -> (n2 >= 1)%nat -> admissible n2 sched2 ->
+  0 < FinishModel.c_block_size wc -> (forall nm, file_ok (host_file nm)) -> splice_ok splice ->
+  let tp1 := tpool_submit cb1 sched1 in let td1 := tpool_dequeue hash dcompress cb1 sched1 in
+  let tp2 := tpool_submit cb2 sched2 in let td2 := tpool_dequeue hash dcompress cb2 sched2 in
+  let G := gensquashfs_tool fnmatch dflt cfg HT ht_search ht_insert BW bw_write bw_bytes host_file xa xsec opts mcompress
+                            limit wc in
+  let T := tar2sqfs_tool dflt o no_tail_pack HT ht_search ht_insert BW bw_write bw_bytes splice xa xsec opts mcompress
+                         limit wc in
+  (G tpool tp1 td1 env1 optm sorted q1 (tpool_init n1 prefix1) ht0 bw0 t =
+   G tpool tp2 td2 env2 optm sorted q2 (tpool_init n2 prefix2) ht0 bw0 t /\
+   G tpool tp1 td1 env1 optm sorted q1 (tpool_init n1 prefix1) ht0 bw0 t =
+   G (list blk) sp_submit (sp_dequeue (process_block hash dcompress)) env3 optm sorted qs [] ht0 bw0 t) /\
+  (T tpool tp1 td1 env1 optm q1 (tpool_init n1 prefix1) ht0 bw0 vs =
+   T tpool tp2 td2 env2 optm q2 (tpool_init n2 prefix2) ht0 bw0 vs /\
+   T tpool tp1 td1 env1 optm q1 (tpool_init n1 prefix1) ht0 bw0 vs =
+   T (list blk) sp_submit (sp_dequeue (process_block hash dcompress)) env3 optm qs [] ht0 bw0 vs).
+Proof.
+  exact (image_env_independent_l fnmatch dflt cfg o no_tail_pack hash dcompress HT ht_search ht_insert BW bw_write bw_bytes
+           host_file splice xa xsec opts mcompress limit wc).
+Qed.
+
+(* the signature: for ANY pool, the tools are the environment-free pipelines [gensquashfs_core] / [tar2sqfs_core] applied
+   to default_mtime env optm; with --defaults mtime=v the environment string is not looked at *)
+Theorem tools_are_functions_of_default_mtime :
+  forall P (sub : P -> blk -> P) (deq : P -> option (blk * P)) env optm,
+  gensquashfs_tool fnmatch dflt cfg HT ht_search ht_insert BW bw_write bw_bytes host_file xa xsec opts mcompress limit wc
+                   P sub deq env optm =
+  gensquashfs_core fnmatch dflt cfg HT ht_search ht_insert BW bw_write bw_bytes host_file xa xsec opts mcompress limit wc
+                   P sub deq (default_mtime env optm) /\
+  tar2sqfs_tool dflt o no_tail_pack HT ht_search ht_insert BW bw_write bw_bytes splice xa xsec opts mcompress limit wc
+                P sub deq env optm =
+  tar2sqfs_core dflt o no_tail_pack HT ht_search ht_insert BW bw_write bw_bytes splice xa xsec opts mcompress limit wc
+                P sub deq (default_mtime env optm) /\
+  (forall env' v,
+     gensquashfs_tool fnmatch dflt cfg HT ht_search ht_insert BW bw_write bw_bytes host_file xa xsec opts mcompress limit wc
+                      P sub deq env (Some v) =
+     gensquashfs_tool fnmatch dflt cfg HT ht_search ht_insert BW bw_write bw_bytes host_file xa xsec opts mcompress limit wc
+                      P sub deq env' (Some v) /\
+     tar2sqfs_tool dflt o no_tail_pack HT ht_search ht_insert BW bw_write bw_bytes splice xa xsec opts mcompress limit wc
+                   P sub deq env (Some v) =
+     tar2sqfs_tool dflt o no_tail_pack HT ht_search ht_insert BW bw_write bw_bytes splice xa xsec opts mcompress limit wc
+                   P sub deq env' (Some v)).
+Proof.
+  exact (tools_signature_l fnmatch dflt cfg o no_tail_pack HT ht_search ht_insert BW bw_write bw_bytes host_file splice xa xsec
+           opts mcompress limit wc).
+Qed.
+
+(* the super block: whenever a tool produces an image, the modification_time of the provisional super block (init.c), of
+   the committed one (finish.c) and the four bytes at that offset of the image FILE are default_mtime env optm *)
+Theorem super_mtime_is_default_mtime :
+  forall P (sub : P -> blk -> P) (deq : P -> option (blk * P)) env optm sorted q p0 (ht0 : HT) (bw0 : BW) t vs w,
+  opt_ok optm ->
+  image_of (gensquashfs_tool fnmatch dflt cfg HT ht_search ht_insert BW bw_write bw_bytes host_file xa xsec opts mcompress
+                             limit wc P sub deq env optm sorted q p0 ht0 bw0 t) = Some w \/
+  image_of (tar2sqfs_tool dflt o no_tail_pack HT ht_search ht_insert BW bw_write bw_bytes splice xa xsec opts mcompress
+                          limit wc P sub deq env optm q p0 ht0 bw0 vs) = Some w ->
+  SuperModel.s_mtime (FinishModel.w_super0 w) = default_mtime env optm /\
+  SuperModel.s_mtime (FinishModel.w_super w) = default_mtime env optm /\
+  SuperModel.fld 4 off_sqfs_super_t_modification_time (FinishModel.image_bytes w) = default_mtime env optm.
+Proof.
+  exact (super_mtime_l fnmatch dflt cfg o no_tail_pack HT ht_search ht_insert BW bw_write bw_bytes host_file splice xa xsec
+           opts mcompress limit wc).
+Qed.
+
+(* every defaulted time stamp is that value: the root and every implicitly created directory; every entry the directory
+   scan delivers without DIR_SCAN_KEEP_TIME (with it: the host's, the default is not used); every entry and root entry
+   tar2sqfs processes without --keep-time *)
+Theorem defaulted_timestamps_are_default_mtime :
+  forall m,
+  a_mtime (node_attr (fs_root (fs_init (with_mtime_dflt m dflt)))) = m /\
+  (forall nm, a_mtime (node_attr (implicit_dir (with_mtime_dflt m dflt) nm)) = m) /\
+  (forall pdev rel s hard tgt e x,
+     classify fnmatch (with_mtime_scfg m cfg) pdev rel s hard tgt = DDeliver e x ->
+     e_mtime e = if c_keep_time cfg then h_mtime s else Z.of_N m) /\
+  (forall t, o_keep_time o = false ->
+     match pt_op_of o (with_mtime_dflt m dflt) t with
+     | PAdd e _ | PRootAttr e => e_mtime e = Z.of_N m
+     | _ => True
+     end).
+Proof. exact (defaulted_timestamps_l fnmatch dflt cfg o). Qed.
+
+End ImageBytes.
+Print Assumptions gensquashfs_image_deterministic.
+Print Assumptions gensquashfs_image_deterministic_readdir.
+Print Assumptions tar2sqfs_walk_factors.
+Print Assumptions tar2sqfs_image_deterministic.
+Print Assumptions append_cut_irrelevant.
+Print Assumptions tar2sqfs_cut_irrelevant.
+Print Assumptions gensquashfs_cut_irrelevant.
+Print Assumptions image_env_independent.
+Print Assumptions tools_are_functions_of_default_mtime.
+Print Assumptions super_mtime_is_default_mtime.
+Print Assumptions defaulted_timestamps_are_default_mtime.
+
+(* ---- non-vacuity (coq/ImgDet/Example.v; everything by vm_compute) ---- *)
+(* the schedule hypotheses: 2 workers (prefix with a spurious wake-up, pre-emptions; rounds starting with spurious
+   wake-ups of all threads), 3 workers (main thread running ahead), 1 worker *)
+Example ex_det_schedules_admissible :
+  admissible 2 d_sched2 /\ admissible 3 d_sched3 /\ admissible 1 d_sched1 /\ nofail d_nofail.
+Proof. exact ex_schedules_admissible. Qed.
+
+Example ex_det_gens_hyps :
+  0 < FinishModel.c_block_size ImgScan.Example.x_wc /\ (forall nm, file_ok (ImgScan.Example.x_host_file nm)).
+Proof. exact ex_gens_hyps. Qed.
+
+(* gensquashfs on the host directory of ImgScan.Example: 2 workers / -Q 3, 3 workers / -Q 40 on the other enumeration
+   order of the directory, 1 worker / -Q 1, serial: one image of 4096 bytes that the format validator accepts *)
+Example ex_det_gens_image :
+  PackModel.image_file (dg_tp d_sched2 2 d_prefix2 3 ImgScan.Example.x_tree) = PackModel.image_file (dg_serial 0 ImgScan.Example.x_tree) /\
+  PackModel.image_file (dg_tp d_sched3 3 d_prefix3 40 ImgScan.Example.x_tree') = PackModel.image_file (dg_serial 0 ImgScan.Example.x_tree) /\
+  PackModel.image_file (dg_tp d_sched1 1 [] 1 ImgScan.Example.x_tree) = PackModel.image_file (dg_serial 0 ImgScan.Example.x_tree) /\
+  dg_serial 0 ImgScan.Example.x_tree = ImgScan.Example.x_pack 3 ImgScan.Example.x_tree /\
+  match PackModel.image_file (dg_serial 0 ImgScan.Example.x_tree) with
+  | Some b => Common.lenN b = 4096 /\ ValidModel.valid_image (TreeModel.img_uncompress 3) 4096 b = true
+  | None => False
+  end.
+Proof. exact ex_gens_image_deterministic. Qed.
+
+(* ... and the LTS runs behind it are different executions: the tickets went through the workers in different orders,
+   neither of them the submission order *)
+Example ex_det_gens_runs_differ :
+  length dg_inputs = 5%nat /\
+  d_ran d_sched2 2 d_prefix2 3 dg_inputs <> d_ran d_sched3 3 d_prefix3 40 dg_inputs /\
+  option_map (@length _) (d_ran d_sched2 2 d_prefix2 3 dg_inputs) = Some 10%nat /\
+  d_ran d_sched3 3 d_prefix3 40 dg_inputs <> Some (rev (seq 0 10)).
+Proof. exact ex_gens_runs_differ. Qed.
+
+(* tar2sqfs: the write_file calls are in archive order (d/x first), not in the order of fs->files *)
+Example ex_det_tar_archive_order :
+  dt_calls = [[[100]; [120]]; [[97]]; [[101]; [102]; [103]]; [[122]]; [[121]]] /\
+  dt_files_sorted = [[[97]]; [[100]; [120]]; [[101]; [102]; [103]]; [[121]]; [[122]]].
+Proof. exact ex_tar_archive_order. Qed.
+
+(* two cuts of the same bytes that differ, both lossless and without an empty piece *)
+Example ex_det_splice :
+  splice_ok d_splice /\ splice_lossless d_splice /\ splice_ok d_splice_odd /\ splice_lossless d_splice_odd /\
+  d_splice (repeat 7 5000) <> d_splice_odd (repeat 7 5000).
+Proof. exact ex_splice_ok. Qed.
+
+(* tar2sqfs on an eight-entry archive (hard link, symbolic link, empty file, implicitly created directories, a directory
+   entry after its content): the same image under the three schedules, under the other cut, and serial; d/x — the first
+   file of the ARCHIVE — sits right behind the super block *)
+Example ex_det_tar_image :
+  PackModel.image_file (dt_tp d_sched2 2 d_prefix2 3) = PackModel.image_file (dt_serial 0) /\
+  PackModel.image_file (dt_tp d_sched3 3 d_prefix3 40) = PackModel.image_file (dt_serial 0) /\
+  PackModel.image_file (dt_tp d_sched1 1 [] 1) = PackModel.image_file (dt_serial 0) /\
+  PackModel.image_file (dt_tp_cut d_splice_odd d_sched3 3 d_prefix3 5) = PackModel.image_file (dt_serial 0) /\
+  match dt_serial 0 with
+  | PackModel.IImage (Res.Ok w) =>
+      let b := FinishModel.image_bytes w in
+      Common.lenN b = 4096 /\ ValidModel.valid_image (TreeModel.img_uncompress 3) 4096 b = true /\
+      SuperModel.s_inode_count (FinishModel.w_super w) = 10 /\ SuperModel.s_frag_count (FinishModel.w_super w) = 1 /\
+      option_map (fun lt => map (fun x => (fst (fst x), snd x, PathsModel.pv_kind (snd (fst x)))) (PathsModel.flat_lt [] lt))
+                 (ReaderModel.read_image_tree (TreeModel.img_uncompress 3) b) =
+      Some [([], 10, TreeModel.LDir 0); ([[97]], 4, TreeModel.LFile 0 300 0 0 904 []); ([[100]], 5, TreeModel.LDir 0);
+            ([[100]; [120]], 1, TreeModel.LFile 96 5000 0 0 0 [4]); ([[101]], 6, TreeModel.LDir 0);
+            ([[101]; [102]], 3, TreeModel.LDir 0);
+            ([[101]; [102]; [103]], 2, TreeModel.LFile 100 9000 0 0 1204 [4; 4]);
+            ([[104]], 4, TreeModel.LFile 0 300 0 0 904 []); ([[108]], 7, TreeModel.LSlink [97]);
+            ([[121]], 8, TreeModel.LFile 0 0 0 InodeModel.NOX InodeModel.NOX []);
+            ([[122]], 9, TreeModel.LFile 0 300 0 0 904 [])]
+  | _ => False
+  end.
+Proof. exact ex_tar_image_deterministic. Qed.
+
+(* environment: SOURCE_DATE_EPOCH "1600000000" and "01600000000" are different strings with the same default_mtime: same
+   image; its super block bytes and all twelve paths (scan without --keep-time) carry 1600000000; one second later the
+   image differs (the parameter is not ignored); with mtime=7 everything carries 7 whatever the variable *)
+Example ex_det_env :
+  default_mtime (Some de_1600000000) None = default_mtime (Some (48 :: de_1600000000)) None /\
+  Some de_1600000000 <> Some (48 :: de_1600000000) /\
+  PackModel.image_file (de_gens (Some de_1600000000) None) = PackModel.image_file (de_gens (Some (48 :: de_1600000000)) None) /\
+  de_mtimes (de_gens (Some de_1600000000) None) = Some (1600000000, repeat 1600000000 12) /\
+  PackModel.image_file (de_gens (Some (removelast de_1600000000 ++ [49])) None) <> PackModel.image_file (de_gens (Some de_1600000000) None) /\
+  de_mtimes (de_gens None (Some 7)) = Some (7, repeat 7 12) /\ opt_ok (Some 7).
+Proof. exact ex_env. Qed.
